@@ -922,7 +922,7 @@ class Fxp():
                 self.vdtype = float  # change to float type if Fxp has fractional part
 
         # check inaccuracy
-        if not np.equal(val, new_val/conv_factor).all() :
+        if not np.equal(val * conv_factor, new_val).all() :
             self.status['inaccuracy'] = True
             self._run_callbacks('on_status_inaccuracy')
 
